@@ -15,16 +15,17 @@ def plan(tier):
             for opt in opts:
                 f, exp = FILES[w]
                 ll = [LL('src/skinny-internal.c', opt=opt, flags=('-msse2', '-mavx2')), LL(f, opt=opt, flags=('-msse2',), export=exp)]
-                qs.append(Q('select:%s:%s:%s' % (NAMES[w], cname, opt), 'c13.c',
-                            'forall x86 CPU/OS models (max leaf, leaf 1 and leaf 7 contents per sub-leaf, XCR0) and forall register garbage: %s [%s build, clang %s] selects the widest usable compiled-in back end, '
-                            'the same one twice, never one the CPU/OS cannot run; parallel size matches' % (NAMES[w], cname, opt),
-                            defs={'WHICH': w, 'HAVE128': h128, 'HAVE256': h256}, ll=ll, cfg=cfg, timeout=300, replay='ir'))
+                for pre in ((0, 1, 2) if cname == 'default' else (0,)):
+                  qs.append(Q('select:%s:%s:%s%s' % (NAMES[w], cname, opt, '' if pre == 0 else ':after-probe%d' % (128 * pre)), 'c13.c',
+                              'forall x86 CPU/OS models (max leaf, leaf 1 and leaf 7 contents per sub-leaf, XCR0) and forall register garbage: %s [%s build, clang %s] selects the widest usable compiled-in back end, '
+                              'the same one twice, never one the CPU/OS cannot run; parallel size matches' % (NAMES[w], cname, opt),
+                              defs={'WHICH': w, 'HAVE128': h128, 'HAVE256': h256, 'PRE': pre}, ll=ll, cfg=cfg, timeout=300, replay='ir'))
     return dict(
         queries=qs, level='model_checking', pre=[],
         functions=['_skinny_has_vec128', '_skinny_has_vec256 (with <cpuid.h> __cpuid/__cpuid_count/__get_cpuid_max and xgetbv inline assembly as clang emits them)',
                    'skinny128_ctr_init', 'skinny64_ctr_init', 'mantis_ctr_init', 'skinny128_parallel_ecb_init', 'skinny64_parallel_ecb_init', 'mantis_parallel_ecb_init'],
         bounds={'CPU model': 'symbolic: max basic leaf >= 1, leaf 1 ECX/EDX, leaf 7 EBX for sub-leaf 0 and (one value) for every other sub-leaf, XCR0; ECX before a cpuid without sub-leaf input is arbitrary per call',
-                'calls': 'two initialisations per run', 'build configurations': 'SIMD compiled in (default), vec256 stubbed out, all SIMD stubbed out'},
+                'calls': 'two initialisations per run, optionally after an earlier probe of the other width (as any other object\'s initialisation would have made)', 'build configurations': 'SIMD compiled in (default), vec256 stubbed out, all SIMD stubbed out'},
         outside=['ARM/NEON probing (compile-time only in the code)', 'the vec init functions themselves (C15/C16)', 'gcc inline-assembly code generation (replayed on this host only for the ECX dependence, see DESIGN)'],
         assumptions=BASE_ASSUMPTIONS + ['usability predicate from the Intel SDM: SSE2 <=> CPUID.1:EDX[26]; AVX2 usable <=> max leaf >= 7 and CPUID.(7,0):EBX[5] and CPUID.1:ECX[27,28] and XCR0[2:1] = 11b',
                                         'clang-14 IR of the probes (inline asm mapped to the CPU model); vec vtables replaced by harness stubs whose init succeeds'],
